@@ -2,6 +2,7 @@
 // getaddrinfo. Interposes the libc entry points; descriptors in [500,1000) are simulated,
 // anything else is forwarded to the real libc.
 #include "sk_internal.hpp"
+#include <execinfo.h>
 
 #include <arpa/inet.h>
 #include <dlfcn.h>
@@ -271,6 +272,9 @@ static long stream_send(const std::shared_ptr<Sock>& s, const void* buf, size_t 
     const bool nb = s->nonblock || (flags & MSG_DONTWAIT);
     std::size_t total = 0;
     const auto* src = static_cast<const std::uint8_t*>(buf);
+    // SO_SNDTIMEO bounds the whole call, not each wait for space (Linux: tcp_sendmsg hands one `timeo` to every
+    // sk_stream_wait_memory of the call, which counts it down): a slow reader cannot keep one send() going for ever.
+    const std::int64_t dl = s->sndtimeo > 0 ? K.now + s->sndtimeo : INT64_MAX;
     for (;;) {
         if (s->closed) return total ? static_cast<long>(total) : fail(EBADF);
         if (s->wr_shut) return total ? static_cast<long>(total) : raise_pipe();
@@ -300,7 +304,7 @@ static long stream_send(const std::shared_ptr<Sock>& s, const void* buf, size_t 
             if (nb) { if (total) return static_cast<long>(total); ++K.stats.eagain; return fail(EAGAIN); }
             auto txp = s->tx;
             auto sp = s;
-            const std::int64_t dl = s->sndtimeo > 0 ? K.now + s->sndtimeo : INT64_MAX;
+            if (s->sndtimeo > 0 && K.now >= dl) return total ? static_cast<long>(total) : fail(EAGAIN);
             block([txp, sp] { return sp->closed || sp->wr_shut || txp->bytes < txp->cap || (txp->rst && txp->rst_at <= K.now) ||
                                      (txp->reader_gone && txp->reader_gone_at <= K.now); },
                   std::min(dl, stream_next_time(*s)));
@@ -329,6 +333,11 @@ static long stream_send(const std::shared_ptr<Sock>& s, const void* buf, size_t 
         total += n;
         hash_event(0x5e4d, static_cast<std::uint64_t>(s->fd), n);
         tracef("send fd %d -> %zu/%zu%s", s->fd, total, len, total < len && !nb ? " (waiting for space)" : "");
+        if (total < len && !nb && getenv("VERIF_TRACE_STACKS")) {  // debugging aid for replays: who sends while the peer does not read
+            void* pcs[48];
+            const int k = backtrace(pcs, 48);
+            backtrace_symbols_fd(pcs, k, 2);
+        }
         if (nb || total >= len) return static_cast<long>(total);
     }
 }
